@@ -3,7 +3,7 @@
     that the whole listing, Forward drops exactly its first entry, Ceil k makes it the entries not
     smaller than k, and Get returns its first entry.  Lemma file. *)
 From Coq Require Import List NArith ZArith Lia Bool Arith Sorted.
-From Mast Require Import Prim Tree Erase Build Spec Canon Level Inv Nav.
+From Mast Require Import Prim Tree Erase Build Spec Canon Links Level Inv Nav.
 Import ListNotations.
 
 Section CURSOR.
@@ -464,6 +464,269 @@ Proof.
     eapply oks_weaken; [exact (max_from_ok F F c ((n, i) :: rest) Hcn Hcn Hp)|].
     intros p' (Hb' & Hv' & Hp'). split; [|split; assumption]. rewrite Hb', Hcl. cbn [anc]. rewrite <- app_assoc. reflexivity.
 Qed.
+
+(** * one position, both views: what lies behind the cursor followed by what lies in front of it is
+    the listing of the tree the cursor was made on, wherever the cursor stands *)
+Fixpoint linked (p : cpath) : Prop :=
+  match p with
+  | (c, _) :: (((n, j) :: _) as r) => to_list_n c = to_list (nth_link _ _ n j) /\ linked r
+  | _ => True
+  end.
+(* the node the path starts from (the root the cursor was made on) *)
+Definition rootof (p : cpath) : option node := match rev p with (n, _) :: _ => Some n | [] => None end.
+Lemma rootof_app (q p : cpath) : p <> [] -> rootof (q ++ p) = rootof p.
+Proof.
+  intros Hp. unfold rootof. rewrite rev_app_distr. destruct (rev p) as [|x r] eqn:E; [|reflexivity].
+  exfalso. apply Hp. apply (f_equal (@rev _)) in E. rewrite rev_involutive in E. exact E.
+Qed.
+Lemma rootof_reindex n i j (r : cpath) : rootof ((n, i) :: r) = rootof ((n, j) :: r).
+Proof.
+  destruct r as [|x r]; [reflexivity|]. change ((n, i) :: x :: r) with ([(n, i)] ++ x :: r). change ((n, j) :: x :: r) with ([(n, j)] ++ x :: r).
+  rewrite !rootof_app by discriminate. reflexivity.
+Qed.
+Lemma rootof_cons x (r : cpath) : r <> [] -> rootof (x :: r) = rootof r.
+Proof. intros H. change (x :: r) with ([x] ++ r). apply rootof_app. exact H. Qed.
+Definition same_root (p p' : cpath) : Prop := p' = [] \/ rootof p' = rootof p.
+
+Definition tot (p : cpath) : list kv := match p with [] => [] | (n, i) :: r => anc r ++ to_list_n n ++ after r end.
+
+Lemma split_at n i : (0 <= i <= nkeys _ _ n)%Z -> to_list_n n = lpre n i ++ to_list (nth_link _ _ n i) ++ suffix n i.
+Proof.
+  intros Hi. rewrite to_list_n_flat, (nth_link_last n i Hi). unfold lpre, suffix.
+  rewrite <- (firstn_skipn (Z.to_nat i) (n_es _ _ n)) at 1. rewrite flat_es_app, app_assoc, lflat_full, <- app_assoc. reflexivity.
+Qed.
+
+Lemma tot_step c i n j r : (0 <= j <= nkeys _ _ n)%Z -> to_list_n c = to_list (nth_link _ _ n j) ->
+  tot ((c, i) :: (n, j) :: r) = tot ((n, j) :: r).
+Proof.
+  intros Hj Hc. cbn [tot anc]. rewrite after_cons, Hc, (split_at n j Hj), <- !app_assoc. reflexivity.
+Qed.
+
+Theorem tot_root F : forall p, linked p -> pok F p -> forall n, rootof p = Some n -> tot p = to_list_n n.
+Proof.
+  induction p as [|[c i] p IH]; intros Hl Hp n0 E; [discriminate|].
+  destruct p as [|[n j] p'].
+  - unfold rootof in E. cbn in E. inversion E; subst. cbn [tot anc after flat_map]. rewrite app_nil_r. reflexivity.
+  - destruct Hl as [Hc Hl]. inversion Hp as [|? ? _ Hp']; subst. inversion Hp' as [|? ? [_ Hj] _]; subst. cbn [fst snd] in Hj.
+    rewrite (tot_step c i n j p' Hj Hc). rewrite rootof_cons in E by discriminate. exact (IH Hl Hp' n0 E).
+Qed.
+
+(* behind ++ in front = around the head node *)
+Theorem before_after_tot p : valid p -> before p ++ tl (after p) = tot p.
+Proof.
+  destruct p as [|[n i] r]; [reflexivity|]. intros Hv. destruct (get_last_ok n i r Hv) as (x & Hb & _). cbn [valid] in Hv.
+  destruct (suffix_step n i Hv) as (e & Ee & El & Hs). destruct (lpre_step n i Hv) as (e' & Ee' & Hl).
+  rewrite Ee in Ee'. inversion Ee'; subst e'.
+  cbn [before tot]. rewrite after_cons, Hs, Hl. cbn [tl app]. rewrite (split_at n i ltac:(lia)), Hs, <- !app_assoc. cbn [app]. rewrite <- !app_assoc. reflexivity.
+Qed.
+
+(* the operations keep the path linked and on the same tree *)
+Lemma linked_cons c i n j r : to_list_n c = to_list (nth_link _ _ n j) -> linked ((n, j) :: r) -> linked ((c, i) :: (n, j) :: r).
+Proof. intros H1 H2. split; assumption. Qed.
+Lemma linked_reindex n i j r : linked ((n, i) :: r) -> linked ((n, j) :: r).
+Proof. destruct r as [|[n' j'] r']; [trivial|]. intros [H1 H2]. split; assumption. Qed.
+Lemma linked_tail x r : linked (x :: r) -> linked r.
+Proof. destruct x as [c i]. destruct r as [|[n j] r']; [trivial|]. intros [_ H]. exact H. Qed.
+
+Lemma min_from_linked : forall f (n : node) rest, linked ((n, 0%Z) :: rest) ->
+  okp (cur_min_from _ _ f n ((n, 0%Z) :: rest)) (fun p' => linked p' /\ rootof p' = rootof ((n, 0%Z) :: rest)).
+Proof.
+  induction f as [|f IH]; intros n rest Hl; [apply okp_nofuel|]. rewrite min_unfold.
+  destruct (is_nil _ _ (n_l0 _ _ n)) eqn:En; [apply okp_ret; split; [exact Hl|reflexivity]|].
+  apply (okp_bind _ _ (fun c => to_list_n c = to_list (n_l0 _ _ n))).
+  { intros t c E. destruct (n_l0 _ _ n); cbn in E; inversion E; reflexivity. }
+  intros c Hc. assert (Hl' : linked ((c, 0%Z) :: (n, 0%Z) :: rest)) by (apply linked_cons; [exact Hc|exact Hl]).
+  intros t p' E. destruct (IH c ((n, 0%Z) :: rest) Hl' t p' E) as [A B]. split; [exact A|]. rewrite B. apply rootof_cons. discriminate.
+Qed.
+
+Lemma pop_fwd_sub : forall p : cpath, exists q, p = q ++ cur_pop_fwd _ _ p.
+Proof.
+  induction p as [|[n i] r IH]; [exists []; reflexivity|]. cbn [cur_pop_fwd]. destruct (i <? nkeys _ _ n)%Z; [exists []; reflexivity|].
+  destruct IH as [q E]. exists ((n, i) :: q). cbn [app]. f_equal. exact E.
+Qed.
+Lemma linked_suffix : forall (q p : cpath), linked (q ++ p) -> linked p.
+Proof. induction q as [|x q IH]; intros p H; [exact H|]. apply IH. exact (linked_tail x _ H). Qed.
+Lemma sub_same_root (x : node * Z) (q p' : cpath) r : r = q ++ p' -> same_root (x :: r) p'.
+Proof.
+  intros E. destruct p' as [|y p']; [left; reflexivity|]. right. rewrite E. change (x :: q ++ y :: p') with ((x :: q) ++ y :: p').
+  symmetry. apply rootof_app. discriminate.
+Qed.
+
+Theorem forward_linked F p : valid p -> linked p -> okp (cur_forward _ _ F p) (fun p' => linked p' /\ same_root p p').
+Proof.
+  destruct p as [|[n i] rest]; intros Hv Hl; [apply okp_ret; split; [exact I|left; reflexivity]|]. cbn [cur_forward].
+  destruct (_ && _)%bool.
+  - apply (okp_bind _ _ (fun c => to_list_n c = to_list (nth_link _ _ n (i + 1)))).
+    { intros t c E. destruct (nth_link _ _ n (i + 1)); cbn in E; inversion E; reflexivity. }
+    intros c Hc. assert (Hl' : linked ((c, 0%Z) :: (n, (i + 1)%Z) :: rest)) by (apply linked_cons; [exact Hc|exact (linked_reindex n i _ rest Hl)]).
+    intros t p' E. destruct (min_from_linked F c _ Hl' t p' E) as [A B]. split; [exact A|]. right.
+    rewrite B, rootof_cons by discriminate. apply rootof_reindex.
+  - destruct (_ <? _)%Z; apply okp_ret.
+    + split; [exact (linked_reindex n i _ rest Hl)|]. right. apply rootof_reindex.
+    + destruct (pop_fwd_sub rest) as [q E]. split.
+      * apply (linked_suffix q). rewrite <- E. exact (linked_tail _ _ Hl).
+      * exact (sub_same_root (n, i) q _ rest E).
+Qed.
+
+(* wherever a cursor made on root n has walked forward to: behind it ++ in front of it = listing of n *)
+Theorem forward_position F p n : valid p -> linked p -> pok F p -> rootof p = Some n ->
+  oks (cur_forward _ _ F p) (fun p' => p' = [] \/ (before p' ++ tl (after p') = to_list_n n /\ valid p' /\ linked p' /\ pok F p' /\ rootof p' = Some n)).
+Proof.
+  intros Hv Hl Hp Hr. destruct (forward_ok F p Hv Hp) as (t & p' & E & Ha & Hv' & Hp'). exists t, p'. split; [exact E|].
+  destruct (forward_linked F p Hv Hl t p' E) as [Hl' [->|Hs]]; [left; reflexivity|]. right. rewrite Hr in Hs.
+  split; [|repeat split; assumption]. rewrite (before_after_tot p' Hv'). exact (tot_root F p' Hl' Hp' n Hs).
+Qed.
+
+Lemma max_from_linked : forall f (n : node) (p : cpath), (forall j, linked ((n, j) :: p)) ->
+  okp (cur_max_from _ _ f n p) (fun p' => linked p' /\ rootof p' = rootof ((n, 0%Z) :: p)).
+Proof.
+  induction f as [|f IH]; intros n p Hl; [apply okp_nofuel|]. rewrite max_unfold.
+  destruct (is_nil _ _ (last_link _ _ (n_l0 _ _ n) (n_es _ _ n))) eqn:En; [apply okp_ret; split; [apply Hl|apply rootof_reindex]|].
+  apply (okp_bind _ _ (fun c => to_list_n c = to_list (last_link _ _ (n_l0 _ _ n) (n_es _ _ n)))).
+  { intros t c E. destruct (last_link _ _ (n_l0 _ _ n) (n_es _ _ n)); cbn in E; inversion E; reflexivity. }
+  intros c Hc.
+  assert (Hlink : nth_link _ _ n (nlinks _ _ n - 1) = last_link _ _ (n_l0 _ _ n) (n_es _ _ n)).
+  { replace (nlinks _ _ n - 1)%Z with (nkeys _ _ n) by (unfold nlinks, nkeys; lia). rewrite (nth_link_last n (nkeys _ _ n)) by (unfold nkeys; lia).
+    unfold nkeys, n_nkeys. rewrite Nat2Z.id, firstn_all. reflexivity. }
+  assert (Hl' : forall j, linked ((c, j) :: (n, (nlinks _ _ n - 1)%Z) :: p)).
+  { intros j. apply linked_cons; [rewrite Hlink; exact Hc|apply Hl]. }
+  intros t p' E. destruct (IH c _ Hl' t p' E) as [A B]. split; [exact A|]. rewrite B, rootof_cons by discriminate. apply rootof_reindex.
+Qed.
+
+Lemma pop_bwd_sub : forall p : cpath, cur_pop_bwd _ _ p = [] \/ exists q n i j r, p = q ++ (n, i) :: r /\ cur_pop_bwd _ _ p = (n, j) :: r.
+Proof.
+  induction p as [|[n i] r IH]; [left; reflexivity|]. cbn [cur_pop_bwd]. destruct (0 <? i)%Z.
+  - right. exists [], n, i, (i - 1)%Z, r. split; reflexivity.
+  - destruct IH as [E|(q & n' & i' & j' & r' & E1 & E2)]; [left; exact E|]. right. exists ((n, i) :: q), n', i', j', r'. split; [cbn [app]; f_equal; exact E1|exact E2].
+Qed.
+
+Theorem backward_linked F p : valid p -> linked p -> okp (cur_backward _ _ F p) (fun p' => linked p' /\ same_root p p').
+Proof.
+  destruct p as [|[n i] rest]; intros Hv Hl; [apply okp_ret; split; [exact I|left; reflexivity]|]. cbn [cur_backward].
+  destruct (_ && _)%bool.
+  - apply (okp_bind _ _ (fun c => to_list_n c = to_list (nth_link _ _ n i))).
+    { intros t c E. destruct (nth_link _ _ n i); cbn in E; inversion E; reflexivity. }
+    intros c Hc. assert (Hl' : forall j, linked ((c, j) :: (n, i) :: rest)) by (intros j; apply linked_cons; [exact Hc|exact Hl]).
+    intros t p' E. destruct (max_from_linked F c _ Hl' t p' E) as [A B]. split; [exact A|]. right. rewrite B. apply rootof_cons. discriminate.
+  - destruct (_ <? _)%Z; apply okp_ret.
+    + split; [exact (linked_reindex n i _ rest Hl)|]. right. apply rootof_reindex.
+    + destruct (pop_bwd_sub rest) as [E|(q & n' & i' & j' & r' & E1 & E2)]; [rewrite E; split; [exact I|left; reflexivity]|].
+      rewrite E2. split.
+      * apply (linked_reindex n' i'). apply (linked_suffix q). rewrite <- E1. exact (linked_tail _ _ Hl).
+      * right. rewrite (rootof_reindex n' j' i'), E1. change ((n, i) :: q ++ (n', i') :: r') with (((n, i) :: q) ++ (n', i') :: r').
+        symmetry. apply rootof_app. discriminate.
+Qed.
+
+Theorem backward_position F p n : valid p -> linked p -> pok F p -> rootof p = Some n ->
+  oks (cur_backward _ _ F p) (fun p' => p' = [] \/ (before p' ++ tl (after p') = to_list_n n /\ valid p' /\ linked p' /\ pok F p' /\ rootof p' = Some n)).
+Proof.
+  intros Hv Hl Hp Hr. destruct (backward_ok F p Hv Hp) as (t & p' & E & Ha & Hv' & Hp'). exists t, p'. split; [exact E|].
+  destruct (backward_linked F p Hv Hl t p' E) as [Hl' [->|Hs]]; [left; reflexivity|]. right. rewrite Hr in Hs.
+  split; [|repeat split; assumption]. rewrite (before_after_tot p' Hv'). exact (tot_root F p' Hl' Hp' n Hs).
+Qed.
+
+(* the starting positions *)
+Theorem min_position F (n : node) : ne F n ->
+  oks (cur_min _ _ F [(n, 0%Z)]) (fun p' => before p' ++ tl (after p') = to_list_n n /\ valid p' /\ linked p' /\ pok F p' /\ rootof p' = Some n).
+Proof.
+  intros Hne. destruct (min_ok F n Hne) as (t & p' & E & Ha & Hv & Hp). exists t, p'. split; [exact E|].
+  destruct (min_from_linked F n [] I t p' E) as [Hl Hr]. rewrite (before_after_tot p' Hv), (tot_root F p' Hl Hp n Hr). repeat split; assumption.
+Qed.
+Theorem max_position F (n : node) : ne F n ->
+  oks (cur_max _ _ F [(n, 0%Z)]) (fun p' => before p' ++ tl (after p') = to_list_n n /\ valid p' /\ linked p' /\ pok F p' /\ rootof p' = Some n).
+Proof.
+  intros Hne. destruct (max_ok F n Hne) as (t & p' & E & Ha & Hv & Hp). exists t, p'. split; [exact E|].
+  destruct (max_from_linked F n [] (fun _ => I) t p' E) as [Hl Hr]. rewrite (before_after_tot p' Hv), (tot_root F p' Hl Hp n Hr). repeat split; assumption.
+Qed.
+
+Lemma pop_ceil_sub : forall p : cpath, exists q, p = q ++ cur_pop_ceil _ _ p.
+Proof.
+  induction p as [|[n i] r IH]; [exists []; reflexivity|]. cbn [cur_pop_ceil]. destruct (i =? nkeys _ _ n)%Z; [|exists []; reflexivity].
+  destruct IH as [q E]. exists ((n, i) :: q). cbn [app]. f_equal. exact E.
+Qed.
+
+Lemma ceil_from_linked k : forall f (n : node) (rest : cpath), (forall j, linked ((n, j) :: rest)) ->
+  okp (cur_ceil_from _ _ cmp f k n rest) (fun p' => linked p' /\ (p' = [] \/ rootof p' = rootof ((n, 0%Z) :: rest))).
+Proof.
+  induction f as [|f IH]; intros n rest Hl; [apply okp_nofuel|]. rewrite ceil_unfold. apply okp_tick. cbv zeta.
+  destruct (span_lt_split k (n_es _ _ n)) as (Ees & _ & _).
+  set (les := fst (span_lt _ _ cmp k (n_es _ _ n))) in *. set (rs := snd (span_lt _ _ cmp k (n_es _ _ n))) in *.
+  set (i := Z.of_nat (length les)).
+  destruct (hits _ _ cmp k rs); [apply okp_ret; split; [apply Hl|right; apply rootof_reindex]|].
+  destruct (is_nil _ _ (last_link _ _ (n_l0 _ _ n) les)) eqn:En.
+  - apply okp_ret. destruct (pop_ceil_sub ((n, i) :: rest)) as [q E]. split.
+    + apply (linked_suffix q). rewrite <- E. apply Hl.
+    + destruct (cur_pop_ceil _ _ ((n, i) :: rest)) as [|y p'] eqn:Ep; [left; reflexivity|]. right.
+      rewrite (rootof_reindex n 0 i), E. symmetry. apply rootof_app. discriminate.
+  - apply (okp_bind _ _ (fun c => to_list_n c = to_list (last_link _ _ (n_l0 _ _ n) les))).
+    { intros t c E. destruct (last_link _ _ (n_l0 _ _ n) les); cbn in E; inversion E; reflexivity. }
+    intros c Hc.
+    assert (Hlink : nth_link _ _ n i = last_link _ _ (n_l0 _ _ n) les).
+    { rewrite (nth_link_last n i) by (unfold i, nkeys, n_nkeys; rewrite Ees, app_length; lia).
+      unfold i. rewrite Nat2Z.id, Ees, firstn_app, firstn_all, Nat.sub_diag. cbn [firstn]. rewrite app_nil_r. reflexivity. }
+    assert (Hl' : forall j, linked ((c, j) :: (n, i) :: rest)) by (intros j; apply linked_cons; [rewrite Hlink; exact Hc|apply Hl]).
+    intros t p' E. destruct (IH c _ Hl' t p' E) as [A [B|B]]; (split; [exact A|]); [left; exact B|right].
+    rewrite B, rootof_cons by discriminate. apply rootof_reindex.
+Qed.
+
+Theorem ceil_position F k (n : node) : ne F n -> ssorted K V cmp (to_list_n n) ->
+  oks (cur_ceil _ _ cmp F k [(n, 0%Z)])
+      (fun p' => p' = [] \/ (before p' ++ tl (after p') = to_list_n n /\ valid p' /\ linked p' /\ pok F p' /\ rootof p' = Some n)).
+Proof.
+  intros Hne Hs. destruct (ceil_ok F k n Hne Hs) as (t & p' & E & Ha & Hv & Hp). exists t, p'. split; [exact E|].
+  destruct (ceil_from_linked k F n [] (fun _ => I) t p' E) as [Hl [->|Hr]]; [left; reflexivity|]. right.
+  rewrite (before_after_tot p' Hv), (tot_root F p' Hl Hp n Hr). repeat split; assumption.
+Qed.
+
+(** the position of a cursor made on root n: index (length (before p) - 1) of the listing *)
+Definition Pos (F : nat) (n : node) (p : cpath) : Prop :=
+  valid p /\ linked p /\ pok F p /\ rootof p = Some n /\ p <> [] /\ before p ++ tl (after p) = to_list_n n.
+
+Theorem pos_get F n p : Pos F n p -> cur_get _ _ p = nth_error (to_list_n n) (length (before p) - 1).
+Proof.
+  intros (Hv & _ & _ & _ & Hne & Hl). destruct p as [|[c i] r]; [contradiction|].
+  destruct (get_last_ok c i r Hv) as (x & Hb & Hg). rewrite Hg, <- Hl, Hb, !app_assoc, app_length. cbn [length].
+  replace (length ((anc r ++ lpre c i) ++ to_list (nth_link _ _ c i)) + 1 - 1) with (length ((anc r ++ lpre c i) ++ to_list (nth_link _ _ c i))) by lia.
+  rewrite <- !app_assoc. rewrite !app_assoc. rewrite <- (app_assoc _ [x]). rewrite nth_error_app2 by lia. rewrite Nat.sub_diag. reflexivity.
+Qed.
+
+Theorem pos_forward F n p : Pos F n p ->
+  oks (cur_forward _ _ F p) (fun p' => p' = [] \/ (Pos F n p' /\ length (before p') = S (length (before p)))).
+Proof.
+  intros (Hv & Hl & Hp & Hr & Hne & Hlist). destruct (forward_position F p n Hv Hl Hp Hr) as (t & p' & E & H). exists t, p'. split; [exact E|].
+  destruct H as [->|(Hlist' & Hv' & Hl' & Hp' & Hr')]; [left; reflexivity|]. right.
+  destruct (forward_ok F p Hv Hp) as (t2 & p2 & E2 & Ha & _). rewrite E in E2. assert (p2 = p') by congruence. subst p2.
+  assert (Hne' : p' <> []). { intros ->. unfold rootof in Hr'. discriminate. }
+  split; [repeat split; assumption|].
+  assert (Hlen : length (before p' ++ tl (after p')) = length (before p ++ tl (after p))) by (rewrite Hlist', Hlist; reflexivity).
+  rewrite !app_length, Ha in Hlen.
+  assert (Ha' : after p' <> []).
+  { destruct p' as [|[c i] r]; [contradiction|]. cbn [valid] in Hv'. destruct (suffix_step c i Hv') as (e & _ & _ & Hs). rewrite after_cons, Hs. discriminate. }
+  rewrite Ha in Ha'. destruct (tl (after p)) as [|y ys] eqn:Et; [contradiction|]. cbn [tl length] in Hlen. lia.
+Qed.
+
+Theorem pos_backward F n p : Pos F n p ->
+  oks (cur_backward _ _ F p) (fun p' => p' = [] \/ (Pos F n p' /\ S (length (before p')) = length (before p))).
+Proof.
+  intros (Hv & Hl & Hp & Hr & Hne & Hlist). destruct (backward_position F p n Hv Hl Hp Hr) as (t & p' & E & H). exists t, p'. split; [exact E|].
+  destruct H as [->|(Hlist' & Hv' & Hl' & Hp' & Hr')]; [left; reflexivity|]. right.
+  destruct (backward_ok F p Hv Hp) as (t2 & p2 & E2 & Hb & _). rewrite E in E2. assert (p2 = p') by congruence. subst p2.
+  assert (Hne' : p' <> []). { intros ->. unfold rootof in Hr'. discriminate. }
+  split; [repeat split; assumption|]. rewrite Hb.
+  destruct p as [|[c i] r]; [contradiction|]. destruct (get_last_ok c i r Hv) as (x & Hbx & _). rewrite Hbx, !app_assoc, removelast_last, !app_length. cbn [length]. lia.
+Qed.
+
+Lemma pos_of F n p : before p ++ tl (after p) = to_list_n n /\ valid p /\ linked p /\ pok F p /\ rootof p = Some n -> Pos F n p.
+Proof.
+  intros (A & B & C & D & E). refine (conj B (conj C (conj D (conj E (conj _ A))))). intros ->. unfold rootof in E. discriminate.
+Qed.
+Theorem pos_min F (n : node) : ne F n -> oks (cur_min _ _ F [(n, 0%Z)]) (Pos F n).
+Proof. intros H. eapply oks_weaken; [exact (min_position F n H)|]. intros p. apply pos_of. Qed.
+Theorem pos_max F (n : node) : ne F n -> oks (cur_max _ _ F [(n, 0%Z)]) (Pos F n).
+Proof. intros H. eapply oks_weaken; [exact (max_position F n H)|]. intros p. apply pos_of. Qed.
+Theorem pos_ceil F k (n : node) : ne F n -> ssorted K V cmp (to_list_n n) ->
+  oks (cur_ceil _ _ cmp F k [(n, 0%Z)]) (fun p => p = [] \/ Pos F n p).
+Proof. intros H Hs. eapply oks_weaken; [exact (ceil_position F k n H Hs)|]. intros p [->|Hp]; [left; reflexivity|right; apply pos_of; exact Hp]. Qed.
 
 End CURSOR.
 
